@@ -2,8 +2,12 @@
 
 run_unit(ctx) = correspondence (extracted Coq model coq/Wire/C19_servoW.v vs the real class, per
 op: outcome, return value, every attribute, level events) + property oracle evaluated on the
-real object after every op + an implementation-only stream of IEEE specials / strings / huge
-ints (oracle: invariant + atomicity of failing calls) + replay of this unit's listed findings.
+real object after every op + constructor calls with NaN / infinite calibration bounds (model
+with specials Host/ActuatorsX.v vs the real constructor, and the oracle) + an implementation-only
+stream of IEEE specials / strings / huge ints (oracle: invariant + atomicity of failing calls) +
+replay of this unit's findings.  The former finding of this unit (F-C19-servo-nonfinite-bound)
+is repaired in the project (kind "fixed"): it excludes nothing, its witness is replayed FIRST on
+every run and a witness that fails again is a VIOLATION whose replay is that witness.
 The property module harness/props/c19.py calls run_unit and merges the coverage it returns.
 """
 from __future__ import annotations
@@ -22,7 +26,9 @@ META_PART = (
     "under the configured linear map after every history from every accepted constructor call), C19_servo_roundtrip, "
     "C19_servo_maps_inverse/_endpoints/_monotone, C19_servo_failed_call_atomic, C19_servo_raises, C19_servo_ctor(_raises) "
     "(coq/Props/C19_servo.v) are proved for all calibrations, arguments (int/float/bool/non-number) and histories about a "
-    "Gallina model of Servo.py over exact rationals (constructor defaults regenerated from the source on every run); the "
+    "Gallina model of Servo.py over exact rationals (constructor defaults regenerated from the source on every run); "
+    "C19_servo_bounds_finite / C19_servo_bounds (for ALL floats, NaN and the infinities included, the constructor's checks accept "
+    "exactly four finite bounds with min < max on both axes - refuted before the repair of Servo.__init__ in the project); the "
     "extracted model is run against the real class on exhaustive op pairs over a boundary alphabet from 11 seed states of 3 "
     "calibrations, a constructor table and seeded random histories, comparing outcome, return value, every attribute and "
     "the level events per op."
@@ -263,20 +269,30 @@ def specials_cases():
 
 
 def x_stream(ctx, st):
-    """Host/ActuatorsX.v servo_bounds_accepted vs the real constructor on bounds that may be IEEE specials
-    (correspondence only: this stream contains the witnesses of F-C19-servo-nonfinite-bound)"""
+    """Host/ActuatorsX.v servo_bounds_accepted vs the real constructor on bounds that may be IEEE specials; every case also
+    goes through the property oracle (this region - NaN / infinite bounds - was outside the guard before the repair)."""
     vals = [NAN, INF, -INF, Fr(0), Fr(180), Fr(544), Fr(2400), Fr(-90)]
     combos = [(a, b, c, d) for a in vals for b in vals for c in vals for d in vals]
-    cases = [("servo", [ABSENT, a, b, c, d], []) for a, b, c, d in combos]
+    cases = [("servo", [ABSENT, a, b, c, d], [("read",), ("read_us",), ("write", b), ("write_us", c), ("read",)]) for a, b, c, d in combos]
+    # each special alone in each position (the other arguments omitted), and pairs on one axis
+    for v in (NAN, INF, -INF):
+        for k in range(1, 5):
+            ctor = [ABSENT] * 5
+            ctor[k] = v
+            cases.append(("servo", ctor, [("read",), ("read_us",), ("write", 5), ("write_us", 1000), ("read_us",)]))
     impl = S.run_impl("servo", cases)
+    for case, r in zip(cases, impl):
+        got = "ok" if r["ctor"][0] == "ok" else r["ctor"][1]
+        special = any(S.is_special(a) for a in case[1])
+        st.bump(st.ctor, ("servo-special-bounds:" if special else "servo-float-bounds:") + got)
+        oracle(ctx, st, case, r, safety_only=True)
     if not ctx.exes.get(UNIT):
-        return 0
+        return len(cases)
     model = ctx.model([[1] + [S.WX(v) for v in combo] for combo in combos], unit=UNIT)
     n_dis = 0
     for case, m, r in zip(cases, model, impl):
         want = "ok" if m == [1] else "ValueError" if m == [0] else "?"
         got = "ok" if r["ctor"][0] == "ok" else r["ctor"][1]
-        st.bump(st.ctor, "servo-specials:" + got)
         if want != got and n_dis < 5:
             n_dis += 1
             ctx.disagree("servo: constructor bound checks on floats with IEEE specials", S.replayable(case), want, got)
@@ -287,9 +303,38 @@ def x_stream(ctx, st):
 # entry points
 # --------------------------------------------------------------------------
 
+def own_findings(ctx):
+    """entries of this unit: known_findings.d/C19_servo.json (this package's own file) takes precedence over the merged
+    known_findings.json, which ./check manifest assembles from it"""
+    items = {f["id"]: f for f in ctx.findings if f.get("unit") == UNIT}
+    own = C.VERIF / "known_findings.d" / (UNIT + ".json")
+    if own.exists():
+        for e in json.loads(own.read_text()):
+            if e.get("unit") == UNIT:
+                items[e["id"]] = e
+    return [f for f in items.values() if "witness" in f]
+
+
+def replay_fixed(ctx):
+    """Repaired defects (kind "fixed") suppress nothing: their witnesses run FIRST through the same oracle as every
+    generated case; one that fails again is a property failure (VIOLATION) whose replay is the witness - never a
+    KNOWN-FINDING line.  The failure takes the key of its class, so the witness is the replay reported for the class."""
+    n = 0
+    for f in own_findings(ctx):
+        if f.get("kind") != "fixed":
+            continue
+        n += 1
+        wc = S.witness_case(f["witness"])
+        r = S.run_impl("servo", [wc], real_sleep=True)[0]
+        for g in S.probe_oracle(ctx, oracle, wc, r, safety_only=True)[:1]:
+            ctx.fail(f"{f.get('fixed', 'fixed: ' + f['id'])} - the repaired defect {f['id']} is back: {g['what']}",
+                     dict(g["case"], witness_of=f["id"]), g["expected"], g["observed"], key=g["key"])
+    return n
+
+
 def replay_findings(ctx):
-    for f in ctx.findings:
-        if f.get("unit") != UNIT or f.get("kind") == "fixed" or "witness" not in f:
+    for f in own_findings(ctx):
+        if f.get("kind") == "fixed":
             continue
         wc = S.witness_case(f["witness"])
         r = S.run_impl("servo", [wc], real_sleep=True)[0]
@@ -299,7 +344,8 @@ def replay_findings(ctx):
 
 def run_unit(ctx: C.Ctx) -> dict:
     st = S.Stats()
-    n_fail0 = len(ctx.failures)
+    n_fixed = replay_fixed(ctx)
+    n_fail0 = len(ctx.failures)          # failures of replayed fixed witnesses stay in front
     stream_cases = generate(ctx)
     cases = [c for _, c in stream_cases]
     for s, _ in stream_cases:
@@ -322,12 +368,13 @@ def run_unit(ctx: C.Ctx) -> dict:
     n_x = x_stream(ctx, st)
     replay_findings(ctx)
     # report the shortest failing history of each class first (ctx.finish keeps the first per key)
-    ctx.failures[n_fail0:] = sorted(ctx.failures[n_fail0:], key=lambda f: len(f["case"]["calls"]))
+    ctx.failures[n_fail0:] = sorted(ctx.failures[n_fail0:], key=lambda f: (len(f["case"]["calls"]), len(str(f["case"]["calls"]))))
 
     samples = [S.show_case(cases[i]) for i in (0, len(cases) // 3, len(cases) // 2, len(cases) - 1)]
     dist = S.distribution(st)
     dist["specials_stream_ops_implementation_only"] = n_spec
-    dist["constructor_calls_with_ieee_special_bounds_compared_with_model"] = n_x
+    dist["constructor_calls_with_ieee_special_bounds_compared_with_model_and_judged_by_the_oracle"] = n_x
+    dist["fixed_witnesses_replayed_first"] = n_fixed
     return {
         "unit": UNIT,
         "evaluations": st.steps,
@@ -335,14 +382,16 @@ def run_unit(ctx: C.Ctx) -> dict:
         "rule": ("Servo: constructor table (%d rejected, %d accepted with unusual types / narrow ranges, 3 calibrations) + exhaustive op pairs over the "
                  "boundary alphabet (min, max, mid, min-eps, max+eps, +-1 outside, int and float forms, bools, None; both write and write_us; getters) of each of "
                  "3 calibrations (default, negative angles, fractional) from 11 seed states%s + seeded random histories (3-15 ops; 70%% in range, 20%% boundary, "
-                 "10%% invalid; %s random dyadic calibrations; a second stream uses non-dyadic binary64 bounds and angles such as 0.1, 179.9, 1/3). evaluations = method calls executed on the real objects and compared field by field with the "
+                 "10%% invalid; %s random dyadic calibrations; a second stream uses non-dyadic binary64 bounds and angles such as 0.1, 179.9, 1/3) + the constructor on "
+                 "all 8^4 quadruples over {NaN, inf, -inf, 0, 180, 544, 2400, -90} and each special alone in each position (model with IEEE specials vs "
+                 "class, and oracle). evaluations = method calls executed on the real objects and compared field by field with the "
                  "model; distinct non-trivial = distinct (full state before, call) with a non-getter call that raised, changed state or emitted events."
                  % (len(BAD_CTORS), len(ODD_CTORS), " + triples over a reduced alphabet" if ctx.tier == "thorough" else "",
                     "50%" if ctx.tier == "thorough" else "30%")),
         "samples": samples,
         "distribution": dist,
-        "guard": ("arguments are ints, bools, None and dyadic floats (no NaN/inf); the listed finding F-C19-servo-nonfinite-bound (a NaN / infinite calibration bound "
-                  "is accepted) lies outside: constructor arguments are never NaN in the generated streams"),
+        "guard": ("none: no listed finding excludes anything (F-C19-servo-nonfinite-bound is repaired, kind=fixed; NaN / infinite calibration bounds are generated "
+                  "and judged like every other argument, its witness is replayed first). The streams of the finite model use ints, bools, None and dyadic floats"),
         "unmodelled": [
             "binary64 rounding: model floats are exact rationals; compared to 1e-9 relative (a one-ulp excursion of a servo bound under write_us is float rounding, tolerated)",
             "IEEE specials (NaN, inf), -0.0, strings and ints beyond the float range as arguments of write/write_us: sent to the implementation only, oracle = invariant + atomicity of failing calls",
